@@ -461,7 +461,9 @@ def eval_seeded(n, ctx, seed, forget=False):
     if t == "subselect":
         spec = n[1]
         if set(spec) - {"where", "proj", "distinct", "star", "orderby", "limit", "offset"} or any(not isinstance(p, str) for p in spec.get("proj") or []): raise Latitude("sub-select with modifiers")
-        keep = set(select_vars(spec)) | set(seed)
+        # plain variant: the handed-down bindings stay on the solutions; counter-measure variant: the projection drops them (the caller
+        # merges its own solution back in afterwards), so a condition evaluated on the sub-select's solution no longer sees them
+        keep = set(select_vars(spec)) | (set() if forget else set(seed))
         if spec.get("distinct") or spec.get("limit") is not None or spec.get("offset") is not None:
             # DISTINCT and slices are taken over what the sub-select finds under the bindings it is handed (the caller decides which: see "group")
             sols = [{k: v for k, v in m.items() if k in keep} for m in eval_seeded(spec["where"], ctx, seed, forget)]
@@ -514,7 +516,12 @@ def eval_seeded(n, ctx, seed, forget=False):
                     # the variant with the usual counter-measures of such an engine: the condition does not see what was pushed into this
                     # group from outside, and an unmatched row is only kept if the OPTIONAL part would not match without the pushed bindings either
                     hidden = set(seed)
-                    ok = [m for m in eval_seeded(body, ctx, a, forget) if all(test(f, {k_: v_ for k_, v_ in m.items() if k_ not in hidden}, ctx) for f in conds)]
+                    if body[1] and all(x[0] == "subselect" for x in body[1]):
+                        # nothing but sub-selects on the right: their projections dropped the left solution, the condition only sees what they project
+                        shown = set()
+                        for x in body[1]: shown |= set(select_vars(x[1]))
+                        hidden = hidden | (set(a) - shown)
+                    ok = [dict(a, **m) for m in eval_seeded(body, ctx, a, forget) if all(test(f, {k_: v_ for k_, v_ in m.items() if k_ not in hidden}, ctx) for f in conds)]
                     if ok: out += ok
                     else:
                         a0 = {k_: v_ for k_, v_ in a.items() if k_ in before}
@@ -540,7 +547,7 @@ def eval_seeded(n, ctx, seed, forget=False):
                 # but whatever was pushed into the group as a whole still reaches it
                 out = join(G, eval_seeded(e, ctx, seed, forget), ctx)
             else:
-                for a in G: out += eval_seeded(e, ctx, a, forget)
+                for a in G: out += [dict(a, **r) for r in eval_seeded(e, ctx, a, forget)]
             G = out
             if len(G) > ctx.budget: raise Budget()
         for f in group_filters(n[1]):
